@@ -1,5 +1,5 @@
-(* The two instances of [formally_real] used by C12: the reals (the scalars of the statement)
-   and the canonical rationals (the scalars of the executed model).  Imports the Reals: use only
+(* The reals are formally real (the scalars of the statement of C12; the rationals, the scalars of
+   the executed model, are handled in Lib/Lsq.v without real numbers).  Imports the Reals: use only
    from Proofs/ and Properties/ files. *)
 From Coq Require Import Reals Lra.
 From LV Require Import Lib.Cis Lib.Lsq.
@@ -22,17 +22,3 @@ Theorem RS_formally_real : formally_real RS.
 Proof. intros N f H p Hp. unfold sumZ in H.
   rewrite <- (Z2Nat.id p) by lia.
   apply (rsumn_sq_zero (Z.to_nat N) (fun i => f (Z.of_nat i)) H (Z.to_nat p)). lia. Qed.
-
-Lemma Q2R_sumn n (g : nat -> Qc) : Q2R (@sumn QS n g) = @sumn RS n (fun i => Q2R (g i)).
-Proof. induction n as [|n IH]; cbn [sumn QS RS kadd k0 K].
-  - exact Q2R_Qc_0.
-  - rewrite Q2R_Qc_add. cbn [sumn QS RS kadd k0 K] in IH. rewrite IH. reflexivity. Qed.
-
-Theorem QS_formally_real : formally_real QS.
-Proof. intros N f H p Hp. unfold sumZ in H.
-  apply (f_equal (fun q : Qc => Q2R q)) in H. rewrite Q2R_sumn in H.
-  change (Q2R (@k0 QS)) with (Q2R 0%Qc) in H. rewrite Q2R_Qc_0 in H.
-  rewrite (sumn_ext RS _ _ (fun i => Q2R (f (Z.of_nat i)) * Q2R (f (Z.of_nat i)))) in H
-    by (intros i _; cbn [QS kmul K]; apply Q2R_Qc_mul).
-  apply Q2R_inj_Qc. change (Q2R (@k0 QS)) with (Q2R 0%Qc). rewrite Q2R_Qc_0. rewrite <- (Z2Nat.id p) by lia.
-  apply (rsumn_sq_zero _ (fun i => Q2R (f (Z.of_nat i))) H (Z.to_nat p)). lia. Qed.
